@@ -66,14 +66,12 @@ Qed.
 Definition reach_inv (s : st) : Prop := exists g, RefInv pfs s /\ TH s /\ Good s g.
 
 Theorem reach_inv_history ops wga inj :
-  s_panic pfs (snd (run pfs pfs_step ops (init_state pfs (pfs_init wga inj)))) = false ->
   (forall pre post, ops = pre ++ post -> tree_ok pfs (snd (run pfs pfs_step pre (init_state pfs (pfs_init wga inj))))) ->
-  reach_inv (snd (run pfs pfs_step ops (init_state pfs (pfs_init wga inj)))).
+  reach_inv (snd (run pfs pfs_step ops (init_state pfs (pfs_init wga inj)))) /\
+  s_panic pfs (snd (run pfs pfs_step ops (init_state pfs (pfs_init wga inj)))) = false.
 Proof.
-  intros HP TH0.
-  assert (H0 : HInv (init_state pfs (pfs_init wga inj)) []).
-  { split; [apply init_inv|]. split; [apply init_good | reflexivity]. }
-  destruct (hinv_runT ops _ _ TH0 HP H0) as (RI & G & _). rewrite run_g_run in RI, G.
+  intros TH0. destruct (coherent_history_u ops wga inj TH0) as (_ & P & (RI & G & _)). rewrite run_g_run in RI, G, P.
+  split; [|exact P].
   exists (snd (run_g ops (init_state pfs (pfs_init wga inj)) [])). split; [exact RI|]. split; [|exact G].
   apply (TH0 ops []). rewrite app_nil_r. reflexivity.
 Qed.
